@@ -492,6 +492,9 @@ def _init_component(
                 f"dict (or any other mutable mapping type), not "
                 f"{qualified_name(child_config)}"
             )
+        else:
+            # Work on a copy so the caller's configuration is left unmodified
+            child_config = dict(child_config)
 
         # If the type was specified only via an alias, use that as a type
         child_config.setdefault("type", alias)
